@@ -204,6 +204,15 @@ func (p *Pool) MarkUnavailable(ip net.IP) {
 
 	p.unavailable[ip.String()] = struct{}{}
 
+	// The declining client no longer holds the address; without this it would
+	// be handed the same address again on its next DISCOVER.
+	for mac, allocatedIP := range p.allocated {
+		if allocatedIP.Equal(ip) {
+			delete(p.allocated, mac)
+			break
+		}
+	}
+
 	// Remove from available
 	for i, avail := range p.available {
 		if avail.Equal(ip) {
